@@ -26,7 +26,9 @@ CONSTANTS Ver, AutoPub, AutoPing, KA,
           Sides,               \* which applications publish: subset of {"c","s"}
           AliasModes,          \* subset of {"none","bind","use"} (v5.0 only)
           Chunks,              \* frames may be delivered in two pieces
-          EndpointProps        \* Props property ids also checked on each endpoint
+          EndpointProps,       \* Props property ids also checked on each endpoint
+          Record               \* TRUE: keep the schedule / last step / request log (safety + replay runs);
+                               \* FALSE: freeze them (liveness runs: TLC cannot use a VIEW there, and they are not needed)
 
 VARIABLES c, s, gc, gs, rc, rs, pg, c2s, s2c, duties, pend, ops, fires, phase, nconn,
           olog,   \* outcome of each application request so far: << connection number, phase, refused?, kind, qos >>.  Part of the
@@ -101,12 +103,13 @@ Commit(who, call, consume, clear, du2, pend2, ops2, fires2, phase2, nconn2) ==
       /\ pg' = pg2
       /\ c2s' = newC2s /\ s2c' = newS2c
       /\ duties' = du3 /\ pend' = pend2 /\ ops' = ops2 /\ fires' = fires2 /\ phase' = phase2 /\ nconn' = nconn2
-      /\ olog' = (IF call.op = "send" /\ call.pkt.kind \in {"publish", "subscribe", "unsubscribe"}
+      /\ olog' = (IF Record /\ call.op = "send" /\ call.pkt.kind \in {"publish", "subscribe", "unsubscribe"}
                   THEN Append(olog, << nconn, phase, HasErr(a.out), call.pkt.kind, call.pkt.qos >>) ELSE olog)
-      /\ last' = [who |-> who, rec |-> r,
+      /\ last' = IF ~Record THEN last ELSE
+                 [who |-> who, rec |-> r,
                   quiet |-> Quiet(c2, s2, gc2, gs2, newC2s, newS2c, du3, pend2, phase2), vacOK |-> VacOK(c2, s2),
                   oc |-> ObsOf(c2), os |-> ObsOf(s2), dc |-> DigOf(c2), ds |-> DigOf(s2)]
-      /\ hist' = Append(hist, [who |-> who, call |-> a.call])
+      /\ hist' = IF Record THEN Append(hist, [who |-> who, call |-> a.call]) ELSE hist
 
 Keep(who, call) == Commit(who, call, "", FALSE, duties, pend, ops, fires, phase, nconn)
 
@@ -219,8 +222,12 @@ NoViolation ==
               \cup Viol(EndpointProps, Gh(w), Rc(w), r, IF w = "c" THEN gc' ELSE gs')
      IN  IF v = {} THEN TRUE ELSE PrintT(<< "SPECVIOL", ToJson([v |-> v, calls |-> BriefP(hist')]) >>) /\ FALSE]_vars
 
-(* the exchange terminates: once the workload budget is spent the system becomes and stays quiet *)
-EventuallyQuiet == <>[](Quiet(c, s, gc, gs, c2s, s2c, duties, pend, phase) \/ (ENABLED AppOp) \/ (ENABLED Lose) \/ (ENABLED FirePing))
+(* The exchange terminates (C01: "no endless response loop").  The environment's actions (AppOp, Lose, FirePing)
+   are bounded by counters and carry no fairness; delivery, the application's duties, the send that follows an
+   acquire, the second half of a loss and the reconnection are weakly fair.  Every fair behaviour must then reach
+   quiescence and stay there: an endless exchange of responses, or a state from which a pending frame / duty can
+   never be worked off, is a counterexample.  Checked by TLC under FairSpec (the pair_live configurations). *)
+Terminates == <>[]Quiet(c, s, gc, gs, c2s, s2c, duties, pend, phase)
 
 PrintEdge == PrintT(<< "E", ToJson([hist |-> hist']) >>)
 =============================================================================
